@@ -118,7 +118,7 @@ func (fr *Frame) writtenInLoop(li *loopInfo) (cells map[*Cell]bool, heap map[str
 						continue
 					}
 					name := funcDisplayName(callee)
-					if c := fr.ex.p.cs.Funcs[name]; c != nil && !c.Inline {
+					if c := fr.ex.p.contractFor(fr.ex.fname, name); c != nil && !c.Inline {
 						for _, a := range c.Assigns {
 							heap[strings.TrimSuffix(a, "[*]")] = true
 						}
